@@ -470,16 +470,16 @@ func resolveObjectBatch(ctx context.Context, sources []interface{}, typ *Object,
 
 	// for every selection, resolve the value or schedule an work unit for the field
 	for _, selection := range selections {
+		if ok, err := ShouldIncludeNode(selection.Directives); err != nil {
+			return nil, nestPathError(selection.Alias, err)
+		} else if !ok {
+			continue
+		}
+
 		if selection.Name == "__typename" {
 			for idx := range nonNilDestinations {
 				nonNilDestinations[idx][selection.Alias] = typ.Name
 			}
-			continue
-		}
-
-		if ok, err := ShouldIncludeNode(selection.Directives); err != nil {
-			return nil, nestPathError(selection.Alias, err)
-		} else if !ok {
 			continue
 		}
 
